@@ -28,10 +28,14 @@ type Kit struct {
 	Delim      string // csv/csv2
 	Header     bool   // csv: header row declared and verified
 	Widths     []int  // fixed-length column widths (id, n, f...)
+	Rows       int    // csv2 / fixed-length / fixedlength2: lines per record (1 = single-line records)
+	HF         bool   // multi-line records delimited by header/footer patterns instead of a fixed row count
+	UsePattern bool   // multi-line: columns pick their line by line_pattern instead of line_index
 	SegDelim   string // edi
 	ElemDelim  string
 	Release    string
 	IgnoreCRLF bool
+	ReplaceDQ  bool   // csv/csv2: replace_double_quotes
 	TopArray   bool   // json: top-level array instead of {"recs":[...]}
 	Encoding   string // "" = utf-8 default
 }
@@ -43,10 +47,23 @@ func NewKit(r *core.Rand, format string) *Kit {
 	case "csv", "csv2":
 		k.Delim = r.Pick(",", ",", "|", "\t", ";", "§")
 		k.Header = r.Bool()
+		k.ReplaceDQ = r.Chance(1, 5)
+		k.Rows = 1
+		if format == "csv2" && r.Chance(1, 2) {
+			k.Rows = r.Range(2, 3)
+			k.HF = r.Bool()
+			k.UsePattern = r.Bool()
+		}
 	case "fixed-length", "fixedlength2":
 		k.Widths = []int{6, 5}
 		for i := 0; i < k.NF; i++ {
 			k.Widths = append(k.Widths, r.Range(3, 9))
+		}
+		k.Rows = 1
+		if r.Chance(1, 2) {
+			k.Rows = r.Range(2, 3)
+			k.HF = r.Bool()
+			k.UsePattern = r.Bool()
 		}
 	case "edi":
 		k.SegDelim = r.Pick("~", "~", "\n", "|")
@@ -112,6 +129,13 @@ func (k *Kit) GenVal(r *core.Rand, maxLen int) string {
 		}
 	}
 	return s
+}
+
+// Widen makes the last free-text column of a fixed-length kit n runes wide (records then straddle reader buffers).
+func (k *Kit) Widen(n int) {
+	if k.Widths != nil {
+		k.Widths[len(k.Widths)-1] = n
+	}
 }
 
 // GenRec generates record number i (ids are unique within an input).
@@ -223,6 +247,54 @@ func (k *Kit) Schema(mode string) []byte {
 	return b
 }
 
+
+// lineSpec describes one physical line of a (possibly multi-line) flat-file record.
+type lineSpec struct {
+	tag    string
+	fields []int // indices into the row (id, n, f1..)
+}
+
+// lines returns the physical layout of one record.
+func (k *Kit) lines() []lineSpec {
+	ncol := 2 + k.NF
+	if k.Rows <= 1 {
+		ls := lineSpec{}
+		for j := 0; j < ncol; j++ {
+			ls.fields = append(ls.fields, j)
+		}
+		return []lineSpec{ls}
+	}
+	out := make([]lineSpec, k.Rows)
+	for i := range out {
+		switch {
+		case !k.HF:
+			out[i].tag = "L" + strconv.Itoa(i)
+		case i == 0:
+			out[i].tag = "H:"
+		case i == k.Rows-1:
+			out[i].tag = "T:"
+		default:
+			out[i].tag = "M" + strconv.Itoa(i)
+		}
+	}
+	for j := 0; j < ncol; j++ {
+		out[j%k.Rows].fields = append(out[j%k.Rows].fields, j)
+	}
+	return out
+}
+
+// lineSel adds the line selector of a column on physical line li to its declaration.
+func (k *Kit) lineSel(col map[string]interface{}, li int, tag string, old bool) {
+	if k.Rows <= 1 {
+		return
+	}
+	if old || k.UsePattern {
+		col["line_pattern"] = "^" + tag
+	} else {
+		col["line_index"] = li + 1
+	}
+}
+
 func (k *Kit) fileDecl() map[string]interface{} {
 	cols := k.colNames()
 	switch k.Format {
@@ -232,6 +304,9 @@ func (k *Kit) fileDecl() map[string]interface{} {
 			cs = append(cs, map[string]interface{}{"name": c})
 		}
 		fd := map[string]interface{}{"delimiter": k.Delim, "data_row_index": 1, "columns": cs}
+		if k.ReplaceDQ {
+			fd["replace_double_quotes"] = true
+		}
 		if k.Header {
 			fd["header_row_index"] = 1
 			fd["data_row_index"] = 2
@@ -239,19 +314,55 @@ func (k *Kit) fileDecl() map[string]interface{} {
 		return fd
 	case "csv2":
 		var cs []interface{}
-		for _, c := range cols {
-			cs = append(cs, map[string]interface{}{"name": c})
+		for li, ls := range k.lines() {
+			for p, j := range ls.fields {
+				col := map[string]interface{}{"name": cols[j], "index": p + 1}
+				if ls.tag != "" {
+					col["index"] = p + 2
+				}
+				k.lineSel(col, li, ls.tag, false)
+				cs = append(cs, col)
+			}
 		}
 		recs := []interface{}{}
 		if k.Header {
 			recs = append(recs, map[string]interface{}{"name": "hdr", "min": 1, "max": 1})
 		}
-		recs = append(recs, map[string]interface{}{"name": "rec", "is_target": true, "columns": cs})
-		return map[string]interface{}{"delimiter": k.Delim, "records": recs}
+		rec := map[string]interface{}{"name": "rec", "is_target": true, "columns": cs}
+		if k.Rows > 1 {
+			if k.HF {
+				rec["header"], rec["footer"] = "^H:", "^T:"
+			} else {
+				rec["rows"] = k.Rows
+			}
+		}
+		recs = append(recs, rec)
+		fd := map[string]interface{}{"delimiter": k.Delim, "records": recs}
+		if k.ReplaceDQ {
+			fd["replace_double_quotes"] = true
+		}
+		return fd
 	case "fixed-length":
-		return map[string]interface{}{"envelopes": []interface{}{map[string]interface{}{"columns": k.flCols()}}}
+		env := map[string]interface{}{"columns": k.flCols(true)}
+		if k.Rows > 1 {
+			if k.HF {
+				env["by_header_footer"] = map[string]interface{}{"header": "^H:", "footer": "^T:"}
+				env["name"] = "rec"
+			} else {
+				env["by_rows"] = k.Rows
+			}
+		}
+		return map[string]interface{}{"envelopes": []interface{}{env}}
 	case "fixedlength2":
-		return map[string]interface{}{"envelopes": []interface{}{map[string]interface{}{"name": "rec", "is_target": true, "columns": k.flCols()}}}
+		env := map[string]interface{}{"name": "rec", "is_target": true, "columns": k.flCols(false)}
+		if k.Rows > 1 {
+			if k.HF {
+				env["header"], env["footer"] = "^H:", "^T:"
+			} else {
+				env["rows"] = k.Rows
+			}
+		}
+		return map[string]interface{}{"envelopes": []interface{}{env}}
 	case "edi":
 		var elems []interface{}
 		for i, c := range cols {
@@ -275,12 +386,17 @@ func (k *Kit) fileDecl() map[string]interface{} {
 	return nil
 }
 
-func (k *Kit) flCols() []interface{} {
+func (k *Kit) flCols(old bool) []interface{} {
 	var cs []interface{}
-	pos := 1
-	for i, c := range k.colNames() {
-		cs = append(cs, map[string]interface{}{"name": c, "start_pos": pos, "length": k.Widths[i]})
-		pos += k.Widths[i]
+	names := k.colNames()
+	for li, ls := range k.lines() {
+		pos := 1 + len(ls.tag)
+		for _, j := range ls.fields {
+			col := map[string]interface{}{"name": names[j], "start_pos": pos, "length": k.Widths[j]}
+			k.lineSel(col, li, ls.tag, old)
+			cs = append(cs, col)
+			pos += k.Widths[j]
+		}
 	}
 	return cs
 }
@@ -376,7 +492,17 @@ func (k *Kit) Render(r *core.Rand, recs []Rec, o RenderOpts) []byte {
 			lines = append(lines, EncodeCSVRow(r, k.colNames(), k.Delim))
 		}
 		for _, rec := range recs {
-			lines = append(lines, EncodeCSVRow(r, row(rec), k.Delim))
+			rw := row(rec)
+			for _, ls := range k.lines() {
+				var cells []string
+				if ls.tag != "" {
+					cells = append(cells, ls.tag)
+				}
+				for _, j := range ls.fields {
+					cells = append(cells, rw[j])
+				}
+				lines = append(lines, EncodeCSVRow(r, cells, k.Delim))
+			}
 		}
 		for i, l := range lines {
 			sb.WriteString(l)
@@ -387,11 +513,16 @@ func (k *Kit) Render(r *core.Rand, recs []Rec, o RenderOpts) []byte {
 		}
 	case "fixed-length", "fixedlength2":
 		for i, rec := range recs {
-			for j, c := range row(rec) {
-				sb.WriteString(PadRunes(c, k.Widths[j], ' '))
-			}
-			if i < len(recs)-1 || !o.NoFinalTerminator {
-				sb.WriteString(nl)
+			rw := row(rec)
+			ls := k.lines()
+			for li, l := range ls {
+				sb.WriteString(l.tag)
+				for _, j := range l.fields {
+					sb.WriteString(PadRunes(rw[j], k.Widths[j], ' '))
+				}
+				if i < len(recs)-1 || li < len(ls)-1 || !o.NoFinalTerminator {
+					sb.WriteString(nl)
+				}
 			}
 			sep()
 		}
